@@ -60,13 +60,13 @@ def crp_case(item, ctx=None, only=None):
     closed[tuple(sl)] = np.prod(others, axis=axis) * np.asarray(dy, dtype=np.float64)
   msgs = []
   fw = np.abs(np.asarray(a) - np.asarray(b)).max()
-  if fw > 1e-5 * max(1.0, np.abs(np.asarray(b)).max()):
+  if not fw <= 1e-5 * max(1.0, np.abs(np.asarray(b)).max()):
     msgs.append("forward value differs from tf.reduce_prod by %.4g" % fw)
   tol = 1e-4 * np.maximum(1.0, np.abs(closed))
   for name, g in (("autodiff of tf.reduce_prod", gb), ("closed form", closed)):
-    bad = np.abs(ga - g) > tol
+    bad = ~(np.abs(ga - g) <= tol)  # NaN counts as a mismatch
     if bad.any():
-      pos = np.unravel_index(int(np.argmax(np.abs(ga - g) / tol)), ga.shape)
+      pos = np.unravel_index(int(np.argmax(bad)), ga.shape)
       sl = list(pos)
       sl[axis] = slice(None)
       msgs.append("gradient %.6g vs %s %.6g at %s for reduced vector %s" %
@@ -149,13 +149,13 @@ def kfl_case(item, ctx=None, only=None):
           g2 = g2.reshape(L, U, dims, terms).transpose(1, 0, 2, 3).reshape(U, -1)
         d = np.abs(g1 - g2).max(axis=1)
         lim = 1e-3 * np.maximum(1.0, np.abs(g2).max(axis=1))
-        bad = np.where(d > lim)[0]
+        bad = np.where(~(d <= lim))[0]
         if len(bad):
           c = int(bad[0])
           msgs.append("d loss/d %s differs from the plain-product expression by %.4g "
                       "(kernel word %s, scale %s)" % (name, d[c], G[c].tolist(), s.tolist()))
       fw = np.abs(np.asarray(out) - np.asarray(ref)).max()
-      if fw > 1e-4 * max(1.0, np.abs(np.asarray(ref)).max()):
+      if not fw <= 1e-4 * max(1.0, np.abs(np.asarray(ref)).max()):
         msgs.append("forward output differs from reference expression by %.4g" % fw)
       if msgs:
         break
@@ -190,7 +190,10 @@ def _jac(layer, xin, var):
   tf, _ = bind.bind()
   with tf.GradientTape() as tape:
     out = layer(xin)
-  return np.asarray(tape.jacobian(out, var), dtype=np.float64), np.asarray(out, dtype=np.float64)
+  J = np.asarray(tape.jacobian(out, var), dtype=np.float64)
+  if not np.all(np.isfinite(J)):
+    J = np.where(np.isfinite(J), J, 1e9)  # non-finite entries must mismatch every reference
+  return J, np.asarray(out, dtype=np.float64)
 
 
 def jac_case(item, ctx=None):
